@@ -663,6 +663,8 @@ from ..selftest import Seed, unparse_seed  # noqa: E402
 
 _EL = "src/odfdo/element.py"
 SEEDS = [
+    Seed("EText guesses is_text from the characters", "fault", "src/odfdo/element.py",
+         "        self.__is_text = text_result.is_text", "        self.__is_text = self.__parent is not None and self.__parent.text == text_result", "R16m"),
     Seed("Element.xpath drops empty string results", "fault", "src/odfdo/element.py",
          "                if isinstance(obj, (str, bytes)):\n                    result.append(EText(obj))",
          "                if isinstance(obj, (str, bytes)):\n                    if obj:\n                        result.append(EText(obj))", "R16l"),
